@@ -348,12 +348,6 @@ func grFiles() ([]string, error) {
 }
 
 // repoDir: the grol tree the harness was built against (VERIF_REPO for scratch copies).
-func repoDir() string {
-	if d := os.Getenv("VERIF_REPO"); d != "" {
-		return d
-	}
-	return "/repo"
-}
 
 var mutTokens = []string{"-", "+", "--", "++", "(", ")", "[", "]", "{", "}", ";", " ", "\n", "!", "=>", "=", "==", ":", ",", ".", "\"", "//", "/*", "*/", "1", "a", "if ", "else ", "func", "return ", "\\", "\x07", "*", "/", "&&", "||", "<", "^", "~", "0x", "e", "_"}
 
